@@ -634,12 +634,12 @@ Qed.
 
 (* ---- force_disconnect(), without encryption support *)
 Definition fd_items (c : cfg) (s : lstate_t) : list item :=
-  reset_phy c ++ [IAa advertising_access_address advertising_crc_init; IAdv (adv_ch s)].
+  reset_phy c ++ [IAa advertising_access_address advertising_crc_init; IAdv GenLL.first_advertising_channel].
 Definition fd_event (s : lstate_t) : cb_event :=
   match st s with Connecting => EvAttemptTimeout | _ => EvClosed (disc_reason s) end.
 
 Lemma fd_exact c s : c_enc c = false ->
-  force_disconnect c s = (set_deferred (set_st (push_event c s (fd_event s)) Advertising) None, fd_items c s).
+  force_disconnect c s = (set_adv_ch (set_deferred (set_st (push_event c s (fd_event s)) Advertising) None) GenLL.first_advertising_channel, fd_items c s).
 Proof.
   intros Enc. unfold force_disconnect, reset_encryption. rewrite Enc.
   unfold start_advertising_impl, handle_start_advertising, fd_items, fd_event. cbn [app].
@@ -1013,7 +1013,7 @@ Lemma fd_general c s : c_enc c = false ->
 Proof.
   intros Enc. rewrite (fd_exact c s Enc). cbn [fst snd]. split; [|split; [reflexivity|exact (proj1 (proj2 (fd_items_views c s)))]].
   destruct (keep_push_event c s (fd_event s)) as (K1 & K2 & K3 & K4 & K5 & K6 & K7).
-  split; cbn [bf chan set_deferred set_st]; [|rewrite K6; reflexivity].
+  split; cbn [bf chan set_deferred set_st set_adv_ch]; [|rewrite K6; reflexivity].
   unfold push_event. destruct (c_cb c); [destruct (_ <? _)|]; reflexivity.
 Qed.
 
@@ -1376,7 +1376,7 @@ Proof.
             (disc_reason s3 = 40 -> c_cb c = true -> cb_count (it9 ++ cb_items (ring s10)) < 4 -> has_closed21 (it9 ++ cb_items (ring s10)) 40 = true)).
   { intros ->. rewrite (fd_exact c s3 Enc) in B. inversion B; subst s9 it9. clear B.
     rewrite (KA eq_refl) in *. split; [reflexivity|]. intros D40 CB CNT.
-    cbn [ring set_deferred set_st] in *. unfold fd_event in *. rewrite C1, P1 in *. rewrite D40 in *.
+    cbn [ring set_deferred set_st set_adv_ch] in *. unfold fd_event in *. rewrite C1, P1 in *. rewrite D40 in *.
     rewrite !has_closed21_app. destruct (cb_views (ring (push_event c s3 (EvClosed 40)))) as (_ & _ & _ & CC & _ & _ & _ & CN).
     rewrite CC. rewrite !cb_count_app, CN in CNT.
     assert (LT : (length (ring (push_event c s3 (EvClosed 40))) < 4)%nat) by (clear - CNT; lia).
